@@ -21,6 +21,24 @@ type c02Cfg struct {
 	MaxL     int    `json:"max_len"`
 	Specials bool   `json:"with_garbage_rows"`
 	Pusher   bool   `json:"second_key_pushes_watermark,omitempty"`
+	// Scale > 1 divides every duration (window size, slide, timeout) and every distance of a timestamp from
+	// 10000 ms by Scale: Scale 4 gives 500 ms windows, whose bounds share wall-clock seconds
+	Scale int64 `json:"scale,omitempty"`
+}
+
+func (c c02Cfg) scale() int64 {
+	if c.Scale > 1 {
+		return c.Scale
+	}
+	return 1
+}
+
+// ts maps an alphabet timestamp (ms) to the configuration's time scale.
+func (c c02Cfg) ts(t int64) int64 {
+	if t < 0 {
+		return t
+	}
+	return 10000 + (t-10000)/c.scale()
 }
 
 // event alphabet: normal timestamps (ms) and three kinds of garbage rows
@@ -46,6 +64,10 @@ func c02Configs(tier string) []c02Cfg {
 				if kind == "session" {
 					out = append(out, c02Cfg{Kind: kind, OOOMs: ooo, LateMs: late, MaxL: maxL, Pusher: true})
 				}
+				if kind != "session" && late > 0 {
+					// quarter scale: 500 ms windows / 1000-500 ms sliding, lateness 250 / 750 ms
+					out = append(out, c02Cfg{Kind: kind, OOOMs: ooo / 4, LateMs: late / 4, MaxL: maxL, Specials: true, Scale: 4})
+				}
 			}
 		}
 	}
@@ -53,12 +75,13 @@ func c02Configs(tier string) []c02Cfg {
 }
 
 func c02SQL(c c02Cfg) string {
-	win := "TumblingWindow('2000ms')"
+	k := c.scale()
+	win := fmt.Sprintf("TumblingWindow('%dms')", 2000/k)
 	switch c.Kind {
 	case "sliding":
-		win = "SlidingWindow('4000ms','2000ms')"
+		win = fmt.Sprintf("SlidingWindow('%dms','%dms')", 4000/k, 2000/k)
 	case "session":
-		win = "k, SessionWindow('2000ms')"
+		win = fmt.Sprintf("k, SessionWindow('%dms')", 2000/k)
 	}
 	sel := "count(*) AS c"
 	if c.Kind == "session" {
@@ -108,7 +131,7 @@ func c02Symbols(c c02Cfg) []c02Sym {
 		return out
 	}
 	for _, t := range c02Alphabet {
-		out = append(out, c02Sym{t, ""})
+		out = append(out, c02Sym{c.ts(t), ""})
 	}
 	return out
 }
